@@ -1,6 +1,7 @@
 import Drx.Lscr
 import Drx.Lscr.LitEval
 import Drx.Lscr.Steps
+import Drx.Lscr.LitEvalFloat
 import Drx.Drv.Util
 namespace Drx.Drv.Lscr
 open Drx Drx.Drv Drx.Lscr
@@ -190,6 +191,15 @@ def run : List String → Option String
     let b ← bytesOfHex h
     some (match decodeUtf8 b with
       | .ok s => (match evalDecimal s with | some (n, m, e) => J.arr [J.bool n, J.nat m, J.int e] | none => J.null).render
+      | .error _ => "bad-op")
+  -- C11 floats: what a decimal literal reads back as (sign, nearest double m·2^e)
+  | ["readdbl", h] => do
+    let b ← bytesOfHex h
+    some (match decodeUtf8 b with
+      | .ok s => (match readDbl s with
+          | some (n, .fin m e) => J.arr [J.bool n, J.nat m, J.int e]
+          | some (n, .inf) => J.arr [J.bool n, J.s "inf"]
+          | none => J.null).render
       | .error _ => "bad-op")
   | _ => none
 
